@@ -630,7 +630,7 @@ func (c *clipperBase) doSplitOp(outrec *OutRec, splitOp *OutPt) {
 	}
 
 	if !(absArea2 > 1 && (absArea2 > absArea1 || (area2 > 0) == (area1 > 0))) {
-		verifEvent("split-drop-tri", ip, splitOp.pt, splitOp.next.pt)
+		verifEvent("split-drop-tri", ip, splitOp.pt, splitOp.next.pt, prevOp.pt, nextNextOp.pt)
 		return
 	}
 
